@@ -159,6 +159,8 @@ func runC18(e *Env) {
 		{"application/x-www-form-urlencoded", "form"}, {"application/x-www-form-urlencoded; charset=utf-8", "form"},
 		{"multipart/form-data", "multipart"},
 		{"application/json", "json"}, {"application/json; charset=utf-8", "json"}, {"text/json", "json"},
+		{"application/json ; charset=utf-8", "json"}, {"application/json\t;charset=utf-8", "json"}, {"text/xml ; charset=utf-8", "xml"},
+		{"application/x-www-form-urlencoded ; charset=UTF-8", "form"},
 		{"application/xml", "xml"}, {"text/xml", "xml"}, {"text/xml; charset=utf-8", "xml"},
 		{"text/plain", "other"}, {"application/yaml", "other"}, {"application/octet-stream", "other"}, {"", "other"},
 		{"application/form-data", "other"}, {"text/html", "other"}, {"application/x-protobuf", "other"},
@@ -196,10 +198,28 @@ func runC18(e *Env) {
 		if ctOverride != "" {
 			ctype = ctOverride
 		}
-		for vi, via := range []string{"binding.Auto", "Context.Bind", "Context.AutoBind", "binding.Bind", "binding.Auto", "Context.Bind"} {
+		for vi, via := range []string{"binding.Auto", "Context.Bind", "Context.AutoBind", "binding.Bind", "binding.Auto", "Context.Bind", "binding.Auto", "Context.Bind"} {
 			req := NewReqBody(method, "/p", ctype, body)
 			req.URL.RawQuery = "name=Q&age=3&extra=only-in-query"
-			if vi >= 4 {
+			if vi >= 6 {
+				// the application has emptied the registry of named binders (used by GetBinder / ShouldBind by
+				// name): automatic binding selects its source from the request alone
+				saved := map[string]binding.Binder{}
+				for _, n := range []string{"json", "xml", "form", "query"} {
+					saved[n] = binding.GetBinder(n)
+				}
+				binding.Remove("json", "xml", "form", "query")
+				defer func() {
+					for n, b := range saved {
+						if b != nil {
+							binding.Register(n, b)
+						}
+					}
+				}()
+				via += " with an emptied binder registry"
+				t.Count("decision.registry_emptied", 1)
+			}
+			if vi == 4 || vi == 5 {
 				if ct.Kind == "form" || ct.Kind == "multipart" {
 					continue
 				}
